@@ -29,6 +29,7 @@ type facts struct {
 	RecoverAsserts    [][2]string        `json:"recoverAsserts"`
 	TokenKinds        []string           `json:"tokenKinds"`
 	Extra             *extraFacts        `json:"extra,omitempty"` // detfacts.go (C12 / C07), additive
+	Graph             *graphFacts            `json:"graph,omitempty"` // lockgraph.go (C07), additive
 }
 
 func must(err error) {
@@ -261,6 +262,7 @@ func main() {
 
 	F.LockFacts = lockFacts(fset, rootFiles, info)
 	F.Extra = collectExtra(fset, rootFiles, info, F.LockFacts)
+	F.Graph = collectGraph(fset, rootFiles, info)
 
 	if *factsOut != "" {
 		b, _ := json.MarshalIndent(F, "", " ")
@@ -357,6 +359,9 @@ func renderLean(F *facts) string {
 	b.WriteString("]\n\n")
 	if F.Extra != nil {
 		b.WriteString(renderExtra(F.Extra))
+	}
+	if F.Graph != nil {
+		b.WriteString(renderGraph(F.Graph))
 	}
 	b.WriteString("end Generated\n")
 	return b.String()
